@@ -564,14 +564,39 @@ func (db *Backend) ListBucketVersions(
 
 			cnt++
 			if page.MaxKeys > 0 && cnt >= page.MaxKeys {
-				truncated = versions.Next()
+				if versions.Next() {
+					truncated = true
+					result.NextKeyMarker = object.name
+					result.NextVersionIDMarker = versions.Value().versionID
+				}
 				goto done
 			}
 		}
 	}
 
 done:
-	result.IsTruncated = truncated || iter.Next()
+	// If the page did not end in the middle of an object's versions, the next
+	// page starts at the first version of the next matching object, if any:
+	for !truncated && iter.Next() {
+		object := iter.Value().(*bucketObject)
+
+		if !prefix.Match(object.name, &match) {
+			continue
+		}
+		if match.CommonPrefix {
+			result.AddPrefix(match.MatchedPart)
+			continue
+		}
+
+		versions := object.Iterator()
+		if versions.Next() {
+			truncated = true
+			result.NextKeyMarker = object.name
+			result.NextVersionIDMarker = versions.Value().versionID
+		}
+	}
+
+	result.IsTruncated = truncated
 
 	return result, nil
 }
